@@ -46,6 +46,10 @@ func TestMain(m *testing.M) {
 	cmd := exec.Command("go", "list", "-export", "-json", "-deps", pkgSafe+"/...", "fmt", "strings", "os", "flag", "embed", "text/template/parse", "io/fs")
 	cmd.Dir = harnessDir()
 	cmd.Env = goEnv()
+	if mf := os.Getenv("VERIF_MODFILE"); mf != "" {
+		// bin/try-mutant: the harness module is resolved against a scratch tree of the library
+		cmd.Env = append(cmd.Env, "GOFLAGS=-mod=mod -modfile="+mf)
+	}
 	var stderr bytes.Buffer
 	cmd.Stderr = &stderr
 	out, err := cmd.Output()
